@@ -20,6 +20,12 @@ struct Shape {
     trailing_comma: bool,
     /// template parameters
     tseed: u64,
+    /// one more, reference-typed argument `ar: &[u64]`; the closure is then called twice with borrows of two block-scoped vectors
+    #[serde(default)]
+    refarg: bool,
+    /// a free function with the same name as the recursion name is in scope and called (as a plain function) from the body
+    #[serde(default)]
+    shadow: bool,
 }
 
 #[derive(Clone, Debug, Hash, Serialize, Deserialize, PartialEq)]
@@ -98,11 +104,28 @@ fn ret_to_u64(r: u8, v: &str) -> String {
 }
 
 /// Emit the body. `call(args)` renders a recursive call.
-fn body(s: &Shape, call: &dyn Fn(&[String]) -> String) -> String {
+fn body(s: &Shape, call0: &dyn Fn(&[String]) -> String, free_fn: &str) -> String {
     let mut r = SplitMix(s.tseed);
     let mut b = String::new();
+    // the reference-typed argument is passed on shortened by one element
+    let call = |args: &[String]| -> String {
+        if s.refarg {
+            let mut a = args.to_vec();
+            a.push("&ar[(ar.len() > 1) as usize..]".to_string());
+            call0(&a)
+        } else {
+            call0(args)
+        }
+    };
+    let call = &call;
     // a u64 "mix" of everything readable
     let mut terms: Vec<String> = vec!["(d as u64)".into()];
+    if s.refarg {
+        terms.push("(ar.iter().fold(5u64, |a, b| a.wrapping_mul(31).wrapping_add(*b)) + ar.len() as u64)".into());
+    }
+    if s.shadow {
+        terms.push(format!("{}(d as u64 + 2)", free_fn));
+    }
     for (i, &t) in s.args.iter().enumerate() {
         terms.push(read_u64(t, &format!("a{}", i), false));
     }
@@ -184,7 +207,10 @@ fn emit(idx: usize, s: &Shape) -> String {
     let mut o = String::new();
     let name = format!("rec{}", idx % 7); // several different macro names
     let ret_ty = s.ret.map(|r| RET_TYPES[r as usize % 4]);
-    let arg_decl: Vec<String> = std::iter::once("d: u32".to_string()).chain(s.args.iter().enumerate().map(|(i, &t)| format!("a{}: {}", i, TYPES[t as usize % 6]))).collect();
+    let mut arg_decl: Vec<String> = std::iter::once("d: u32".to_string()).chain(s.args.iter().enumerate().map(|(i, &t)| format!("a{}: {}", i, TYPES[t as usize % 6]))).collect();
+    if s.refarg {
+        arg_decl.push("ar: &[u64]".to_string());
+    }
     let cap_decl_macro: Vec<String> = s.caps.iter().enumerate().map(|(i, &(m, t))| format!("c{}: &{}{}", i, if m { "mut " } else { "" }, TYPES[t as usize % 6])).collect();
     let cap_decl_fn = cap_decl_macro.clone();
     let caps_init: String = s.caps.iter().enumerate().map(|(i, &(m, t))| format!("let {}c{}: {} = {};\n", if m { "mut " } else { "" }, i, TYPES[t as usize % 6], init_value(t, i as u64 + 1))).collect();
@@ -196,17 +222,30 @@ fn emit(idx: usize, s: &Shape) -> String {
     let state: String = std::iter::once("&res".to_string()).chain(s.caps.iter().enumerate().map(|(i, _)| format!("&c{}", i))).collect::<Vec<_>>().join(", ");
     let ret_arrow = ret_ty.map(|t| format!(" -> {}", t)).unwrap_or_default();
     let _ = writeln!(o, "#[allow(unused_mut, unused_variables, unused_parens, clippy::all)]\nfn prog_{}() -> bool {{", idx);
+    if s.shadow {
+        // an ordinary function that happens to have the name used for the recursion
+        let _ = writeln!(o, "fn {}(x: u64) -> u64 {{ x.wrapping_mul(31).wrapping_add(7) }}", name);
+    }
     // macro version
     let _ = writeln!(o, "let m_out = {{\n{}let res = {{", caps_init);
     let caps_list = if s.caps.is_empty() { "||".to_string() } else { format!("|{}|", cap_decl_macro.join(", ")) };
-    let _ = writeln!(o, "let mut f = rec_lambda!({}, {} {{\n|{}|{} {{\n{}}}\n}});", name, caps_list, arg_decl.join(", "), ret_arrow, body(s, &macro_call));
-    let _ = writeln!(o, "let r_a = f({});\nlet r_b = f({});\n(r_a, r_b)\n}};", first_args(0), first_args(1));
+    let _ = writeln!(o, "let mut f = rec_lambda!({}, {} {{\n|{}|{} {{\n{}}}\n}});", name, caps_list, arg_decl.join(", "), ret_arrow, body(s, &macro_call, &name));
+    if s.refarg {
+        // two calls whose reference arguments live in different, non-overlapping scopes
+        let _ = writeln!(o, "let r_a = {{ let v = vec![4u64, 9, 1]; f({}, &v) }};\nlet r_b = {{ let w = vec![8u64, 3]; f({}, &w[..]) }};\n(r_a, r_b)\n}};", first_args(0), first_args(1));
+    } else {
+        let _ = writeln!(o, "let r_a = f({});\nlet r_b = f({});\n(r_a, r_b)\n}};", first_args(0), first_args(1));
+    }
     let _ = writeln!(o, "format!(\"{{:?}}\", ({}))\n}};", state);
     // twin version
     let _ = writeln!(o, "let t_out = {{\n{}", caps_init);
-    let _ = writeln!(o, "fn twin({}){} {{\n{}}}", arg_decl.iter().cloned().chain(cap_decl_fn.iter().cloned()).collect::<Vec<_>>().join(", "), ret_arrow, body(s, &twin_call));
+    let _ = writeln!(o, "fn twin({}){} {{\n{}}}", arg_decl.iter().cloned().chain(cap_decl_fn.iter().cloned()).collect::<Vec<_>>().join(", "), ret_arrow, body(s, &twin_call, &name));
     let pass_outer: Vec<String> = s.caps.iter().enumerate().map(|(i, &(m, _))| format!("&{}c{}", if m { "mut " } else { "" }, i)).collect();
-    let outer_call = |k: u64| -> String { format!("twin({})", std::iter::once(first_args(k)).chain(pass_outer.iter().cloned()).collect::<Vec<_>>().join(", ")) };
+    let refarg = s.refarg;
+    let outer_call = |k: u64| -> String {
+        let extra = if refarg { vec![if k == 0 { "&[4u64, 9, 1][..]".to_string() } else { "&[8u64, 3][..]".to_string() }] } else { vec![] };
+        format!("twin({})", std::iter::once(first_args(k)).chain(extra).chain(pass_outer.iter().cloned()).collect::<Vec<_>>().join(", "))
+    };
     let _ = writeln!(o, "let res = {{ let r_a = {}; let r_b = {}; (r_a, r_b) }};", outer_call(0), outer_call(1));
     let _ = writeln!(o, "format!(\"{{:?}}\", ({}))\n}};", state);
     let _ = writeln!(o, "if m_out == t_out {{ println!(\"P{} OK {{}}\", m_out.len()); true }} else {{ println!(\"P{} DIFF macro={{}} twin={{}}\", m_out, t_out); false }}\n}}", idx, idx);
@@ -264,7 +303,9 @@ fn all_shapes(templates: u64, base: u64) -> Vec<Shape> {
                         for _ in 0..templates {
                             let caps: Vec<(bool, u8)> = (0..k).map(|i| ((pat >> i) & 1 == 1, rng.below(6) as u8)).collect();
                             let args: Vec<u8> = (0..nargs - 1).map(|_| rng.below(6) as u8).collect();
-                            shapes.push(Shape { caps, args, ret: if ret { Some(rng.below(4) as u8) } else { None }, trailing_comma: tc, tseed: rng.next() });
+                            let tseed = rng.next();
+                            // a quarter of the programs carry a reference-typed argument, a fifth a same-named free function
+                            shapes.push(Shape { caps, args, ret: if ret { Some(rng.below(4) as u8) } else { None }, trailing_comma: tc, tseed, refarg: (tseed >> 20) % 4 == 1, shadow: (tseed >> 30) % 5 == 2 });
                         }
                     }
                 }
@@ -293,6 +334,12 @@ fn stats_for(s: &Shape) -> CaseStats {
     }
     if s.ret.is_none() {
         st.label("no-return-type");
+    }
+    if s.refarg {
+        st.label("reference-typed-argument-borrowed-in-two-scopes");
+    }
+    if s.shadow {
+        st.label("free-function-named-like-the-recursion");
     }
     st.size = (s.caps.len() + s.args.len()) as u64;
     st
